@@ -336,6 +336,9 @@ def run_check(prop, tier, verif_seed, workers=None, runs=None, budget_s=None):
         except OpTimeout:
             print("HARNESS-ERROR op-timeout during determinism self-test")
             return 3
+        except Exception:  # a harness defect (or a tree the harness cannot drive): never exit 1 without a VIOLATION line
+            print(f"HARNESS-ERROR run index {i} failed inside the harness: " + traceback.format_exc()[-1200:])
+            return 2
         first[i] = a
         if a != b:
             det["in_process_mismatches"] += 1
